@@ -156,6 +156,9 @@ func (c *Cond) Wait() {
 	if !vrt.Active() {
 		panic("vsync.Cond.Wait outside a coop episode")
 	}
+	// the caller evaluated its condition before calling Wait: it can be preempted
+	// between that and its registration on the notify list
+	vrt.Point("Cond.Wait")
 	w := &condWaiter{}
 	c.waiters = append(c.waiters, w)
 	c.L.Unlock()
